@@ -73,4 +73,11 @@ def stripPad (v : Bytes) : Bytes := (dropPadRev v.reverse).reverse
 def decode (v : Bytes) : Option Bytes :=
   if v.length % 4 != 0 then decodeRaw v else decodeRaw (stripPad v)
 
+/-- the URL-safe alphabet back to the standard one -/
+def unswapURL (c : UInt8) : UInt8 := if c == 45 then 43 else if c == 95 then 47 else c
+
+/-- the reading of a padded URL-safe base64 value (the Connect GET `message` parameter with
+`base64=1`): padding removed, alphabet mapped back, decoded -/
+def decodeURLPadded (v : Bytes) : Option Bytes := decodeRaw ((stripPad v).map unswapURL)
+
 end ConfModel.Base64
